@@ -382,5 +382,14 @@ pub fn run(ctx: &Ctx) {
         v
     }, check);
 
+    ctx.listed("long_identities", "ID_A (resp. ID_B, resp. both) of 122..129, 250..257, 1000, 4096, 8191, 8192, 65535, 65536, 70000 bytes: exact R_A, R_B, SK_A, SK_B (an identity is a byte string of any length)", move || {
+        let mut v = Vec::new();
+        for (i, l) in [122usize, 123, 127, 128, 129, 250, 251, 255, 256, 257, 1000, 4096, 8191, 8192, 65535, 65536, 70_000].iter().enumerate() {
+            let (a, b) = match i % 3 { 0 => (*l, 3), 1 => (5, *l), _ => (*l, *l) };
+            v.push(Xc { ke: gen::hex32(&BigUint::from(0x0bad_c0de_1234_5677u64)), ke_rel: 0, ida_len: a, idb_len: b, id_seed: 0x1d00 + i as u64, same_id: false, klen: 16 + i, ra: Hex(expand_bytes(i as u64 ^ 0xe5, 32)), rb: Hex(expand_bytes(i as u64 ^ 0xe6, 32)), t_ra: None, t_rb: None });
+        }
+        v
+    }, check);
+
     ctx.generated("tampered_histories", "proptest exchanges with R_A and/or R_B altered in transit", ctx.tier.pick(250, 3_000), || xc(true), check);
 }
